@@ -61,6 +61,13 @@ theorem c10_canonical {V : Type} (n : Nat) (hn : 0 < n) (ser : V → Option Val)
 theorem c10_canonical_hyp {V : Type} (n : Nat) (ins : List (Int × V)) (d : Dict V) (h : setAll n ins [] = some d) : DictOK n d :=
   setAll_ok n ins [] d ⟨by simp, by simp⟩ h
 
+
+/-- UNIQUE.  Two canonical dictionary cells (spec-valid, every label in the reference constructor, nothing pruned) with the same
+leaf list are the SAME cell (bits and references, recursively) — so, with `c10_canonical`, the cell `HashMap.serialize()` returns
+is the one the reference serialiser produces for that map, and its hash (C01) is the on-chain hash. -/
+theorem c10_unique {n : Nat} {c₁ c₂ : Cell} {kv : List (Bits × Val)} (h₁ : Canonical n c₁ kv) (h₂ : Canonical n c₂ kv) : c₁ = c₂ :=
+  canonical_unique' h₁ rfl c₂ kv rfl h₂
+
 /-- PARSE ANY VALID TREE (plain): if `c` is a spec-valid `Hashmap n X` — every label in ANY of the constructors
 short/long/same that can express it, edges possibly replaced by pruned branches when `p = true` — whose non-pruned leaves
 are `kv`, then `parse_hashmap(c.begin_parse(), n)` returns exactly `kv` (same keys, same value slices, same order). -/
